@@ -120,12 +120,12 @@ def extract(q, R, spec):
         if lv.parent is None:
             lv_path[id(lv)] = []
         else:
-            pk = (tuple(lv_path.get(id(lv.parent), [])), lv.parent_tag)
+            pk = (tuple(lv_path.get(id(lv.parent), [])), lv.parent_tag, False)
             prow = cx.rrows.get(pk)
             lv_path[id(lv)] = (prow["path"] if prow and prow.get("adds") else lv_path.get(id(lv.parent), []) + ["?" + str(lv.parent_tag)])
         for tag, body in lv.branches:
             row = describe_reader_row(q, cx, lv, tag, body, lv_path[id(lv)])
-            cx.rrows[(tuple(lv_path[id(lv)]), tag)] = row
+            cx.rrows[(tuple(lv_path[id(lv)]), tag, row["comment"] is not None)] = row
     cx.header = reader_header(q, cx, R)
     cx.ok = True
     return cx
@@ -502,7 +502,7 @@ def r03_4(q, R, cx, spec):
                    detail="two writer rows of the same kind")
         wk[key] = wr
     rk = {}
-    for (path, tag), rr in cx.rrows.items():
+    for (path, tag, _c), rr in cx.rrows.items():
         is_comment = rr["comment"] is not None
         p = rr["path"][:-1] if rr.get("adds") else rr["path"]
         key = "%s:%s%s" % (_short_path(p + ([rr["adds"]] if rr.get("adds") else [])) or "<top>", tag, "(comment)" if is_comment else "")
@@ -659,6 +659,56 @@ def replace_table(body):
         return None
 
 
+def scanner_table(body, intro):
+    """Single-pass forms.  escape: `for c in s.chars() { match c { 'x' => out.push_str("\\x"), .., c => out.push(c) } }`;
+    unescape: `while let Some(c) = chars.next() { if c == INTRO { match chars.next() { Some('x') => out.push('y'), .. } } else { out.push(c) } }`.
+    -> list of (from, to) or None."""
+    def lit_push(e):
+        e = H.peel(e)
+        if e.get("k") == "block" and len(e["stmts"]) == 1 and "tail" not in e:
+            e = H.peel(e["stmts"][0])
+        if e.get("k") == "mcall" and e["name"] in ("push", "push_str") and len(e["args"]) == 1:
+            v = H.const_value(e["args"][0])
+            return v if isinstance(v, str) else None
+        return None
+
+    def pat_char(p):
+        p = H.pat_peel(p)
+        v = H.pat_variant(p)
+        if v and v[1] == "Some" and p.get("k") == "ptuplestruct" and len(p["pats"]) == 1:
+            p = H.pat_peel(p["pats"][0])
+            some = True
+        else:
+            some = False
+        if p.get("k") == "pexpr" and p["e"].get("t") == "char":
+            return p["e"]["v"], some
+        return None, some
+
+    pairs = []
+    for n in H.walk(body["body"]):
+        if n.get("k") != "match" or n.get("src") not in (None, "Normal"):
+            continue
+        arms = [(pat_char(a["pat"]), lit_push(a["body"])) for a in n["arms"] if "guard" not in a]
+        hits = [((c, some), to) for (c, some), to in arms if c is not None]
+        if not hits:
+            continue
+        if any(to is None for _, to in hits):
+            return None
+        if all(some for (c, some), _ in hits):
+            # unescape: must sit under `if <char> == INTRO`
+            conds = [H.peel(cn, refs=False) for kind, cn, pol in H.path_conditions(body["body"], n) if kind == "if" and pol is True]
+            ok = any(c.get("k") == "bin" and c["op"] == "==" and intro in (H.const_value(c["l"]), H.const_value(c["r"])) for c in conds)
+            sc = H.peel(n["scrut"])
+            if not ok or not (sc.get("k") == "mcall" and sc["name"] == "next"):
+                return None
+            pairs.extend((intro + c, to) for (c, _), to in hits)
+        elif not any(some for (c, some), _ in hits):
+            pairs.extend((c, to) for (c, _), to in hits)
+        else:
+            return None
+    return pairs or None
+
+
 def r03_5(q, R, cx, spec):
     R.rule("R03.5", "escape/unescape: for every character special to the line splitter (BufRead::lines) or the field splitter "
                     "(TinyLine::new) escape replaces it by a sequence free of special characters and unescape maps that sequence "
@@ -669,11 +719,18 @@ def r03_5(q, R, cx, spec):
     if not (R.anchor("R03.5", "fn tiny_v2::escape", esc) and R.anchor("R03.5", "fn tiny_v2::unescape", une)):
         return
     et, ut = replace_table(esc), replace_table(une)
+    e_single = u_single = False
     if et is None:
-        R.unrecognised("R03.5", "tiny_v2::escape", "body is not a chain of str::replace(literal, literal) on the parameter", esc["sp"])
+        et = scanner_table(esc, spec["escape_introducer"])
+        e_single = et is not None
+    if ut is None:
+        ut = scanner_table(une, spec["escape_introducer"])
+        u_single = ut is not None
+    if et is None:
+        R.unrecognised("R03.5", "tiny_v2::escape", "body is neither a chain of str::replace(literal, literal) on the parameter nor a single-pass `match` over the characters", esc["sp"])
         return
     if ut is None:
-        R.unrecognised("R03.5", "tiny_v2::unescape", "body is not a chain of str::replace(literal, literal) on the parameter", une["sp"])
+        R.unrecognised("R03.5", "tiny_v2::unescape", "body is neither a chain of str::replace(literal, literal) on the parameter nor a single-pass `match` over the characters", une["sp"])
         return
     special = dict(spec["line_reader_special"])
     special[spec["separator"]] = "field separator (TinyLine::new splits at it)"
@@ -688,15 +745,11 @@ def r03_5(q, R, cx, spec):
                got={"escape": to, "unescape": [k for k, v in ut if v == ch]})
     # the introducer itself
     to = emap.get(intro)
-    ok_i = to is not None and umap.get(to) == intro and (not et or et[0][0] == intro) and (not ut or ut[-1][1] == intro or True)
-    if ok_i:
-        # order: escape must treat the introducer first, unescape must not re-interpret produced introducers:
-        # a single left-to-right pass is required; a replace chain is only correct if the introducer pair is first in
-        # escape and last in unescape
-        ok_i = et[0][0] == intro and ut[-1][1] == intro
+    ok_i = to is not None and umap.get(to) == intro and e_single and u_single
     R.inst("R03.5", "escape:%s" % names[intro], ok_i, sp=esc["sp"],
-           expect="escape: %r -> %r first; unescape: the inverse last" % (intro, intro + intro),
-           got={"escape": et, "unescape": ut},
+           expect="escape: %r -> %r and the inverse, both as a single pass over the characters (a chain of str::replace re-scans its own "
+                  "output and cannot be inverted once the introducer is escaped)" % (intro, intro + intro),
+           got={"escape": et, "unescape": ut, "single_pass": [e_single, u_single]},
            detail="without it a comment that contains the two characters `\\` `n` is read back as a line break")
     # pairs must be mutually inverse, nothing else
     inv = sorted((b, a) for a, b in et) == sorted(ut)
@@ -814,32 +867,10 @@ def r03_6(q, R, cx):
         ok = False
         got = None
         if len(asg) == 1:
-            conds = H.path_conditions(cm["body"], asg[0])
             pid = H.param_ids(cm)[0]
-            for kind, cn, pol in conds:
-                if kind == "iflet" and pol is False:
-                    v = H.pat_variant(cn["pat"])
-                    loc = H.local_of(cn["init"])
-                    if v and v[1] == "Some" and loc and loc[0] == pid:
-                        ok = True
-                if kind == "iflet" and pol is True:
-                    v = H.pat_variant(cn["pat"])
-                    loc = H.local_of(cn["init"])
-                    if v and v[1] == "None" and loc and loc[0] == pid:
-                        ok = True
-                if kind == "arm":
-                    a = cn["arms"][pol]
-                    v = H.pat_variant(a["pat"])
-                    loc = H.local_of(cn["scrut"])
-                    some_other = any(H.pat_variant(x["pat"]) and H.pat_variant(x["pat"])[1] == "Some" for x in cn["arms"] if x is not a)
-                    if loc and loc[0] == pid and ((v and v[1] == "None") or (H.pat_peel(a["pat"]).get("k") == "wild" and some_other)):
-                        ok = True
-                if kind in ("if", "after-exit"):
-                    inner, neg = H.negate_peel(cn)
-                    if inner.get("k") == "mcall" and inner["name"] in ("is_some", "is_none") and H.local_of(inner["recv"]) and H.local_of(inner["recv"])[0] == pid:
-                        val = (pol != neg)
-                        ok = ok or (inner["name"] == "is_none") == val
-            got = [(k, H.render(c)[:60], p) for k, c, p in conds]
+            st = U.option_conditions(cm["body"], asg[0], pid)
+            ok = st == {"none"}
+            got = sorted(st)
             # the other side must be an error
             errs = [n for n in H.walk(cm["body"]) if n.get("k") == "ret" and H.macro_of(n, "bail")]
             ok = ok and bool(errs)
